@@ -8,13 +8,14 @@ import datetime
 from simverif import corpus
 
 class SenderRejected(Exception):
-    """The library composed 20 units in a row that its own parser does not accept whole (or could not
-    construct / compose them at all): the sender of this channel is unusable on the tree under test."""
+    """A unit the library composed from a properly constructed object is not accepted whole by the library's own
+    parser (or could not be constructed / composed at all)."""
 
-    def __init__(self, channel, errors):
+    def __init__(self, channel, errors, unit=None):
         super(SenderRejected, self).__init__('channel %s: %s' % (channel, sorted(set(errors))))
         self.channel = channel
         self.errors = sorted(set(errors))
+        self.unit = unit
 
 
 _SIZES = (0, 1, 2, 3, 4, 5, 7, 8, 15, 16, 31, 32, 33, 63, 64, 127, 128, 255, 256, 257, 300, 511, 1024)
@@ -62,6 +63,8 @@ class Pools(object):
                 else:
                     self.ext_client += objs
                     self.ext_server += objs
+        self.ext_client = self._usable_extensions(self.ext_client, 'client')
+        self.ext_server = self._usable_extensions(self.ext_server, 'server')
         self.host_keys = [o for _, o in corpus.objects(P + 'ssh.key.SshHostPublicKeyVariant')]
         self.ssh_init = [o for _, o in corpus.objects(P + 'ssh.subprotocol.SshMessageVariantInit')]
         self.ssh_dh = [o for _, o in corpus.objects(P + 'ssh.subprotocol.SshMessageVariantKexDH')]
@@ -74,6 +77,30 @@ class Pools(object):
         self.openvpn = corpus.composed([P + 'tls.openvpn.OpenVpnPacketVariant'])
         self.banners = corpus.composed([P + 'ssh.subprotocol.SshProtocolMessage'])
         self.kexinit = [o for _, o in corpus.objects(P + 'ssh.subprotocol.SshKeyExchangeInit')]
+
+
+    @staticmethod
+    def _usable_extensions(pool, side):
+        """Extension objects harvested from the corpus are only sent inside a hello of the side they belong to:
+        keep those that a minimal hello carries through compose and parse unchanged (an HRR-only key share, or an
+        'unparsed' extension that carries a known type, is not a valid client / server hello extension)."""
+        from cryptodatahub.tls.algorithm import TlsCipherSuite
+        from cryptoparser.tls.subprotocol import TlsHandshakeClientHello, TlsHandshakeServerHello
+        from simverif.canon import canon
+        suite = list(TlsCipherSuite)[0]
+        usable = []
+        for ext in pool:
+            try:
+                if side == 'client':
+                    hello = TlsHandshakeClientHello(cipher_suites=[suite], extensions=[ext])
+                else:
+                    hello = TlsHandshakeServerHello(cipher_suite=suite, extensions=[ext])
+                back = type(hello).parse_exact_size(bytes(hello.compose()))
+                if len(back.extensions) == 1 and canon(back.extensions[0]) == canon(ext):
+                    usable.append(ext)
+            except Exception:  # pylint: disable=broad-except
+                continue
+        return usable
 
 
 _POOLS = None
@@ -211,18 +238,17 @@ def handshake_message(rng, discards=None, validate=True):
         return _handshake_message(rng)
     from cryptoparser.tls.subprotocol import TlsHandshakeMessageVariant
     from simverif import core
-    errors = []
-    for _ in range(20):
-        try:
-            raw = _handshake_message(rng)
-            TlsHandshakeMessageVariant.parse_exact_size(raw)
-        except Exception as exc:  # pylint: disable=broad-except
-            errors.append(type(exc).__name__)
-            if discards is not None:
-                discards.append(type(exc).__name__)
-            continue
-        return raw
-    raise SenderRejected('tls_handshake', errors)
+    try:
+        raw = _handshake_message(rng)
+    except Exception as exc:  # pylint: disable=broad-except
+        raise SenderRejected('tls_handshake', ['construct/compose: ' + type(exc).__name__], None)
+    try:
+        TlsHandshakeMessageVariant.parse_exact_size(raw)
+    except Exception as exc:  # pylint: disable=broad-except
+        if discards is not None:
+            discards.append(type(exc).__name__)
+        raise SenderRejected('tls_handshake', [type(exc).__name__], raw)
+    return raw
 
 
 # ---------------------------------------------------------------- framing units
@@ -270,7 +296,8 @@ def make_ssl2_record(rng):
         )
     elif kind < 0.9:
         message = SslHandshakeServerHello(
-            certificate=rbytes(rng, rsize(rng, hi=3000)),
+            # (the 2-byte record header carries a 15-bit length: exercise both sides of 2**14)
+            certificate=rbytes(rng, rsize(rng, hi=3000) if rng.random() < 0.93 else rng.choice((16300, 16384, 20000, 32600))),
             cipher_kinds=rng.sample(list(SslCipherKind), rng.randrange(0, len(SslCipherKind) + 1)),
             connection_id=rbytes(rng, rng.choice((0, 16, 16, 1))),
             session_id_hit=rng.random() < 0.5,
@@ -498,20 +525,19 @@ class Channel(object):
         discrepancy: it is counted and not sent."""
         from simverif import core
         cls = core.get_class(self.cls_path)
-        errors = []
         if self.spec_sender:
             return self._make(rng)
-        for _ in range(20):
-            try:
-                raw = self._make(rng)
-                cls.parse_exact_size(raw)
-            except Exception as exc:  # pylint: disable=broad-except
-                errors.append(type(exc).__name__)
-                if discards is not None:
-                    discards.append(type(exc).__name__)
-                continue
-            return raw
-        raise SenderRejected(self.name, errors)
+        try:
+            raw = self._make(rng)
+        except Exception as exc:  # pylint: disable=broad-except
+            raise SenderRejected(self.name, ['construct/compose: ' + type(exc).__name__], None)
+        try:
+            cls.parse_exact_size(raw)
+        except Exception as exc:  # pylint: disable=broad-except
+            if discards is not None:
+                discards.append(type(exc).__name__)
+            raise SenderRejected(self.name, [type(exc).__name__], raw)
+        return raw
 
 
 P_ = 'cryptoparser.'
